@@ -65,6 +65,15 @@ var c15Faults = []c15Fault{
 	{"multiline:division-by-zero", "<%= 1 /\n\n0 %>", false},
 	{"multiline:string-with-newline", "<%= nope + \"a\nb\" %>", false},
 	{"multiline:trailing-comment", "<%= nope # why\n %>", false},
+	// the failing statement first runs a block successfully (a function body, a
+	// helper block) and then fails: the line is still the tag's
+	{"fails-after-function-call-in-same-statement", "<%= okfn() + nope %>", false},
+	{"fails-after-helper-block-in-same-statement", "<%= two(cap() { %>b<% }, nope) %>", false},
+	{"fails-after-function-call-in-argument", "<%= ci(okfn(), \"s\") %>", false},
+	// one mistake whose follow-up messages are on later lines: the error still
+	// starts with the line of the failing tag
+	{"cascade-on-later-lines", "<% if (true) %>\nmid\n<% } else { %>\nq\n<% } %>", true},
+	{"cascade-two-lines-down", "<%= for (x) in %>\n\n<% } %>", true},
 	{"unclosed-paren", "<%= (1 %>", true},
 	{"no-prefix-fn", "<%= * 2 %>", true},
 	{"bad-let", "<% let = 1 %>", true},
@@ -101,6 +110,8 @@ var c15Containers = []struct {
 	{"after-helper-block", "<%= cap() { %>\n b \n<% } %>\n", "\n", false},
 	{"after-fn-call", "<% let f3 = fn() {\n let q = 1\n return q\n} %>\n<%= f3() %>\n", "\n", false},
 	{"after-partial", "<%= partial(\"ok\") %>\n", "\n", true},
+	{"after-swallowed-error-inside-fn", "<% let f4 = fn() {\n  let w = 1\n  return nope\n} %>\n<%= if (f4()) { %>T<% } %>\n<%= !f4() %>\n", "\n", false},
+	{"after-swallowed-error-in-condition", "<%= if (tt.Next.Name) { %>\nT\n<% } %>\n", "\n", false},
 }
 
 var reLine = regexp.MustCompile(`(?m)^line (\d+):`)
@@ -111,6 +122,7 @@ func c15Ctx() *plush.Context {
 	ctx.Set("xs", []int{1, 2})
 	ctx.Set("tt", newT("t"))
 	ctx.Set("ci", func(i int) int { return i })
+	ctx.Set("two", func(a, b interface{}) interface{} { return a })
 	ctx.Set("cap", func(h plush.HelperContext) (template.HTML, error) {
 		s, err := h.Block()
 		return template.HTML(s), err
@@ -140,6 +152,9 @@ func c15Run(b *core.B) {
 	var idx int64
 	one := func(f c15Fault, ci int, prefix, suffix string) {
 		c := c15Containers[ci]
+		if strings.Contains(f.tag, "okfn") {
+			prefix = "<% let okfn = fn() {\n  let inner = 1\n  return inner\n} %>\n" + prefix
+		}
 		before := prefix + c.pre
 		tmpl := before + f.tag + c.post + suffix
 		if !b.Begin(tmpl) {
